@@ -6,6 +6,7 @@ from engine.helpers import (resolver, facts_at, guarded, lit_cmp, describe_facts
                             calls_to, unparse, body_only_aborts, isnone_side, walk_no_nested, deref)
 from engine.lin import to_lin, clause_implies, facts_cnf
 from engine.types import CallGraph, bind_args
+from rules.shared import IncludeRegion
 
 MZ = 'bespokeasm.assembler.memory_zone.MemoryZone'
 MGR = 'bespokeasm.assembler.memory_zone.manager.MemoryZoneManager'
@@ -294,21 +295,13 @@ def c05_5(ctx):
     if not inc:
         raise AnalysisError('load_line_objects no longer calls _handle_include_file')
     for node, _ in inc:
-        n0 = g.node_of(node)
-        touched = []
-        for nid in g.reachable_from(n0):
-            nd = g.nodes[nid]
-            if nd.kind == 'iter':
-                continue
-            # stop at loop header: walk only until the next iteration
-        # simple structural form: the enclosing If body of the include call
-        ifs = [i for i in walk_no_nested(fn.node) if isinstance(i, ast.If) and any(sub is node for sub in ast.walk(i))]
-        inner = min(ifs, key=lambda i: i.end_lineno - i.lineno)
-        body_assigns = [unparse(t) for s in inner.body for n in ast.walk(s) if isinstance(n, ast.Assign) for t in n.targets]
-        ends_continue = isinstance(inner.body[-1], ast.Continue)
+        reg = IncludeRegion(ctx, fn, node)
+        body_assigns = reg.assigned()
+        reparsed = reg.calls(lambda c: unparse(c.func).endswith('LineOjectFactory.parse_line'))
+        ends_continue = not reparsed and not reg.leaves_loop
         ctx.check('current_memzone' not in body_assigns and ends_continue, 'file:include-keeps-zone', fn.site(node),
                   'the include branch neither reads back nor changes the includer\'s zone and skips to the next line',
-                  f'assignments in include branch: {body_assigns}, ends with continue: {ends_continue}')
+                  f'assignments in include branch: {body_assigns}, goes straight to the next line: {ends_continue}')
     # zone passed to the line factory is the current one
     pl = [c for c in ast.walk(fn.node) if isinstance(c, ast.Call) and unparse(c.func).endswith('LineOjectFactory.parse_line')]
     if not pl:
@@ -347,7 +340,8 @@ def zone_provenance(ctx):
                 ctx.ok(key, fn.site(e.node), 'a zone directive lives in the zone it selects (checked by C05.4)', got)
                 continue
             if fn.qualname.endswith('Assembler.assemble_bytecode'):
-                ctx.check(got == 'memzone_manager.global_zone', key, fn.site(e.node), 'predefined data blocks live in GLOBAL', got)
+                got_ = unparse(deref(ctx, fn, a, e.node)) if a is not None else got
+                ctx.check('memzone_manager.global_zone' in (got, got_), key, fn.site(e.node), 'predefined data blocks live in GLOBAL', got)
                 continue
             ctx.check(got in ('current_memzone', 'memzone'), key, fn.site(e.node),
                       'the zone handed down is the caller\'s current zone', f'{zp}={got}')
